@@ -12,13 +12,18 @@ package rawmessagesfilter
 //@   requires [own-height] message.BlockHeight() == caller.state.height
 //@   requires [own-instance] message.InstanceId() == caller.instanceId
 //@   requires [not-from-me] message.SenderMemberId() != caller.myMemberId
-//@   modifies state.State.height, state.State.view, rawmessagesfilter.RawMessageFilter.consensusMessagesHandler, rawmessagesfilter.RawMessageFilter.latestFutureBlockHeight, M:Int:Slice_Iface
+//@   modifies state.State.height, state.State.view, rawmessagesfilter.RawMessageFilter.consensusMessagesHandler, rawmessagesfilter.RawMessageFilter.latestFutureBlockHeight, M:Int:Slice_Iface, ghost:ndelivered, ghost:delivered
+//@   ensures ndelivered >= old(ndelivered) + 1 && delivered[old(ndelivered)] == message
+//@   ensures forall j int :: 0 <= j && j < old(ndelivered) ==> delivered[j] == old(delivered[j])
+//@   ensures caller.state.height == old(caller.state.height) ==> ndelivered == old(ndelivered) + 1 && caller.consensusMessagesHandler == old(caller.consensusMessagesHandler) && caller.latestFutureBlockHeight == old(caller.latestFutureBlockHeight)
+//@   ensures caller.state.height == old(caller.state.height) ==> (forall k int :: has(caller.futureCache, k) == old(has(caller.futureCache, k)) && caller.futureCache[k] == old(caller.futureCache[k]))
 //@   ensures caller.state.height >= old(caller.state.height)
 //@   ensures caller.state == old(caller.state) && caller.futureCache == old(caller.futureCache)
 //@   ensures forall k int, i int :: has(caller.futureCache, k) && 0 <= i && i < len(caller.futureCache[k]) ==> caller.futureCache[k][i].BlockHeight() == k && caller.futureCache[k][i].InstanceId() == caller.instanceId && caller.futureCache[k][i].SenderMemberId() != caller.myMemberId
 
 //@ func (*RawMessageFilter).clearCacheEarlierThan
 //@   props C17
+//@   modifies M:Int:Slice_Iface
 //@   requires f.futureCache != nil
 //@   ensures [earlier-removed] forall k int :: k < height ==> !has(f.futureCache, k)
 //@   ensures [others-kept] forall k int :: k >= height ==> has(f.futureCache, k) == old(has(f.futureCache, k)) && f.futureCache[k] == old(f.futureCache[k])
@@ -31,15 +36,38 @@ package rawmessagesfilter
 
 //@ func (*RawMessageFilter).HandleConsensusRawMessage
 //@   props C17 C08
-//@   requires f.state != nil && f.futureCache != nil && rawMessage != nil
+//@   modifies state.State.height, state.State.view, rawmessagesfilter.RawMessageFilter.consensusMessagesHandler, rawmessagesfilter.RawMessageFilter.latestFutureBlockHeight, M:Int:Slice_Iface, ghost:ndelivered, ghost:delivered
+//@   requires f.state != nil && f.futureCache != nil && rawMessage != nil && ndelivered >= 0
 //@   requires [inv.cache] forall k int, i int :: has(f.futureCache, k) && 0 <= i && i < len(f.futureCache[k]) ==> f.futureCache[k][i].BlockHeight() == k && f.futureCache[k][i].InstanceId() == f.instanceId && f.futureCache[k][i].SenderMemberId() != f.myMemberId
 //@   ensures [inv.cache] forall k int, i int :: has(f.futureCache, k) && 0 <= i && i < len(f.futureCache[k]) ==> f.futureCache[k][i].BlockHeight() == k && f.futureCache[k][i].InstanceId() == f.instanceId && f.futureCache[k][i].SenderMemberId() != f.myMemberId
+//@   ensures [deliver.iff] (ndelivered > old(ndelivered)) == (message.SenderMemberId() != f.myMemberId && message.BlockHeight() == old(f.state.height) && message.InstanceId() == f.instanceId && old(f.consensusMessagesHandler) != nil)
+//@   ensures [deliver.this-message] ndelivered > old(ndelivered) ==> delivered[old(ndelivered)] == message
+//@   ensures [cache.append.key] message.SenderMemberId() != f.myMemberId && message.InstanceId() == f.instanceId && message.BlockHeight() > old(f.state.height) && message.BlockHeight() >= old(f.latestFutureBlockHeight) ==> has(f.futureCache, message.BlockHeight()) && f.latestFutureBlockHeight == message.BlockHeight()
+//@   ensures [cache.append.len] message.SenderMemberId() != f.myMemberId && message.InstanceId() == f.instanceId && message.BlockHeight() > old(f.state.height) && message.BlockHeight() >= old(f.latestFutureBlockHeight) ==> len(f.futureCache[message.BlockHeight()]) == ite(old(has(f.futureCache, message.BlockHeight())) && !isnil(old(f.futureCache[message.BlockHeight()])), old(len(f.futureCache[message.BlockHeight()])), 0) + 1
+//@   ensures [cache.append.last] message.SenderMemberId() != f.myMemberId && message.InstanceId() == f.instanceId && message.BlockHeight() > old(f.state.height) && message.BlockHeight() >= old(f.latestFutureBlockHeight) ==> f.futureCache[message.BlockHeight()][len(f.futureCache[message.BlockHeight()]) - 1] == message
+//@   ensures [cache.append.prefix] message.SenderMemberId() != f.myMemberId && message.InstanceId() == f.instanceId && message.BlockHeight() > old(f.state.height) && message.BlockHeight() >= old(f.latestFutureBlockHeight) ==> (forall i int :: 0 <= i && i < len(f.futureCache[message.BlockHeight()]) - 1 ==> f.futureCache[message.BlockHeight()][i] == old(f.futureCache[message.BlockHeight()][i]))
+//@   ensures [cache.append.higher-keys-kept] message.SenderMemberId() != f.myMemberId && message.InstanceId() == f.instanceId && message.BlockHeight() > old(f.state.height) && message.BlockHeight() >= old(f.latestFutureBlockHeight) ==> (forall k int :: k > message.BlockHeight() ==> has(f.futureCache, k) == old(has(f.futureCache, k)) && f.futureCache[k] == old(f.futureCache[k]))
+//@   ensures [cache.append.lower-keys-dropped] message.SenderMemberId() != f.myMemberId && message.InstanceId() == f.instanceId && message.BlockHeight() > old(f.state.height) && message.BlockHeight() >= old(f.latestFutureBlockHeight) && message.BlockHeight() > old(f.latestFutureBlockHeight) ==> (forall k int :: k < message.BlockHeight() ==> !has(f.futureCache, k))
+//@   ensures [cache.untouched-otherwise] !(message.SenderMemberId() != f.myMemberId && message.InstanceId() == f.instanceId && message.BlockHeight() > old(f.state.height) && message.BlockHeight() >= old(f.latestFutureBlockHeight)) && f.state.height == old(f.state.height) ==>
+//@     | (forall k int :: has(f.futureCache, k) == old(has(f.futureCache, k)) && f.futureCache[k] == old(f.futureCache[k])) && f.latestFutureBlockHeight == old(f.latestFutureBlockHeight)
+//@   ensures [nothing-delivered-when-cached-or-dropped] !(message.SenderMemberId() != f.myMemberId && message.BlockHeight() == old(f.state.height) && message.InstanceId() == f.instanceId) ==> ndelivered == old(ndelivered) && f.state.height == old(f.state.height)
 
 //@ func (*RawMessageFilter).ConsumeCacheMessages
 //@   props C17
-//@   requires f.state != nil && f.futureCache != nil
+//@   modifies state.State.height, state.State.view, rawmessagesfilter.RawMessageFilter.consensusMessagesHandler, rawmessagesfilter.RawMessageFilter.latestFutureBlockHeight, M:Int:Slice_Iface, ghost:ndelivered, ghost:delivered
+//@   requires f.state != nil && f.futureCache != nil && ndelivered >= 0
 //@   requires [inv.cache] forall k int, i int :: has(f.futureCache, k) && 0 <= i && i < len(f.futureCache[k]) ==> f.futureCache[k][i].BlockHeight() == k && f.futureCache[k][i].InstanceId() == f.instanceId && f.futureCache[k][i].SenderMemberId() != f.myMemberId
+//@   ensures [inv.cache] forall k int, i int :: has(f.futureCache, k) && 0 <= i && i < len(f.futureCache[k]) ==> f.futureCache[k][i].BlockHeight() == k && f.futureCache[k][i].InstanceId() == f.instanceId && f.futureCache[k][i].SenderMemberId() != f.myMemberId
+//@   ensures [consumed] !has(f.futureCache, old(f.state.height))
+//@   ensures [exactly-once-in-order.count] consensusMessagesHandler != nil && f.state.height == old(f.state.height) ==> ndelivered == old(ndelivered) + len(old(f.futureCache[f.state.height]))
+//@   ensures [exactly-once-in-order.elems] consensusMessagesHandler != nil && f.state.height == old(f.state.height) ==> (forall i int :: 0 <= i && i < len(old(f.futureCache[f.state.height])) ==> delivered[old(ndelivered) + i] == old(f.futureCache[f.state.height])[i])
+//@   ensures [earlier-log-kept] forall j int :: 0 <= j && j < old(ndelivered) ==> delivered[j] == old(delivered[j])
 //@   loop range messages
 //@     invariant [frame] f.state == old(f.state) && f.futureCache == old(f.futureCache)
-//@     invariant [height-stable] f.state.height == height
+//@     invariant [height-monotone] f.state.height >= height && height == old(f.state.height)
+//@     invariant [messages-are-the-cached-ones] messages == old(f.futureCache[old(f.state.height)])
+//@     invariant [log.count] consensusMessagesHandler != nil && f.state.height == height ==> ndelivered == old(ndelivered) + $i && f.consensusMessagesHandler == consensusMessagesHandler
+//@     invariant [log.elems] consensusMessagesHandler != nil && f.state.height == height ==> (forall j int :: old(ndelivered) <= j && j < old(ndelivered) + $i ==> delivered[j] == messages[j - old(ndelivered)])
+//@     invariant [earlier-log-kept] ndelivered >= old(ndelivered) && (forall j int :: 0 <= j && j < old(ndelivered) ==> delivered[j] == old(delivered[j]))
+//@     invariant [inv.cache] forall k int, i int :: has(f.futureCache, k) && 0 <= i && i < len(f.futureCache[k]) ==> f.futureCache[k][i].BlockHeight() == k && f.futureCache[k][i].InstanceId() == f.instanceId && f.futureCache[k][i].SenderMemberId() != f.myMemberId
 //@     invariant [messages-of-this-height] forall i int :: 0 <= i && i < len(messages) ==> messages[i].BlockHeight() == height && messages[i].InstanceId() == f.instanceId && messages[i].SenderMemberId() != f.myMemberId
